@@ -51,9 +51,9 @@ def _tty(sc):
     return ("T" if sc.get("tin") else "F") + ("T" if sc.get("terr") else "F")
 
 
-def _key(direction, mode, sc, rc, last, field, pos, exp, got):
+def _key(direction, mode, sc, plan, field, pos, exp, got):
     """What identifies a deviation: the scenario and the first deviating item."""
-    return {"dir": direction, "mode": mode, "field": field, "pos": pos, "fp": f"{field}@{pos}", "exp": exp, "got": got, "rc": rc, "last": last,
+    return {"dir": direction, "mode": mode, "field": field, "pos": pos, "fp": f"{field}@{pos}", "exp": exp, "got": got, "rc": plan.get("rc", ""), "last": plan.get("last", ""), "inter": bool(plan.get("inter", False)),
             "a0": sc.get("a0", ""), "opts": " ".join(sc.get("opts", [])), "sep": sc.get("sep", ""),
             "ops": "|".join(sc.get("ops", [])), "tty": _tty(sc), "ids": sc.get("ids", ""),
             "env": ";".join(f"{n}={v}" for n, v in sc.get("env", [])), "files": " ".join(sc.get("files", [])),
@@ -63,6 +63,31 @@ def _key(direction, mode, sc, rc, last, field, pos, exp, got):
 def _describe(sc, argv):
     return (f"argv {argv}, stdin/stderr terminals {_tty(sc)}, ids {sc.get('ids')}, environment {sc.get('env')}, "
             f"files {sc.get('files')}, program {sc.get('prog')}, EXIT trap {sc.get('trap')!r}")
+
+
+def _exercise(gen):
+    """Which rules of Startup.tla the enumerated scenarios exercise (TLC's -coverage runs
+    out of memory on this string-heavy functional specification): counts per rule tag."""
+    import collections
+    c = {k: collections.Counter() for k in ("family", "class", "source", "interactive", "rcfile", "last_command",
+                                            "trap", "alternatives", "status", "stderr", "argv0", "tty", "ids")}
+    for j in vlib.read_ndjson(gen):
+        sc, plan = j["sc"], j["plan"]
+        c["family"][j["fam"]] += 1
+        c["class"][j["class"]] += 1
+        c["source"][plan["src"]] += 1
+        c["interactive"][str(plan["inter"]).lower()] += 1
+        c["rcfile"][plan["rc"]] += 1
+        c["last_command"][plan["last"] or "-"] += 1
+        c["trap"][sc["trap"] or "-"] += 1
+        c["alternatives"][str(len(j["alts"]))] += 1
+        c["argv0"][sc["a0"]] += 1
+        c["tty"][_tty(sc)] += 1
+        c["ids"][sc["ids"]] += 1
+        for a in j["alts"]:
+            c["status"]["signal" if a["sig"] else ("1-125" if a["lo"] != a["hi"] else str(a["lo"]))] += 1
+            c["stderr"][a["err"]] += 1
+    return {k: dict(sorted(v.items())) for k, v in c.items()}
 
 
 def _side(cfgs, side):
@@ -128,8 +153,8 @@ def _run(tier, cfgs, wd, rep, side, th, t0):
         plan = m.get("plan", {})
         detail = (f"{m['mode']}: {_describe(sc, m['argv'])}: observed {m['seen']}; allowed {m['alts']} "
                   f"(deviating: {m['field']}, line {m['pos']}: expected {m['exp']!r}, got {m['got']!r})")
-        rep.violation(_key("spec->impl", m["mode"], sc, plan.get("rc", ""), plan.get("last", ""), m["field"], m["pos"],
-                           m["exp"], m["got"]), detail, m["line"])
+        rep.violation(_key("spec->impl", m["mode"], sc, plan, m["field"], m["pos"], m["exp"], m["got"]), detail, m["line"])
+    exercised = _exercise(gen)
     os.remove(gen)
     os.remove(mis)
 
@@ -150,7 +175,7 @@ def _run(tier, cfgs, wd, rep, side, th, t0):
         if v["v"] == "reject":
             rec = recs[v["i"] - 1]
             run_ = next((x for x in rec["runs"] if x["mode"] == v["mode"]), {})
-            rep.violation(_key("impl->spec", v["mode"], rec["sc"], v["rc"], v["last"], v["field"], v["pos"], v["exp"], v["got"]),
+            rep.violation(_key("impl->spec", v["mode"], rec["sc"], v, v["field"], v["pos"], v["exp"], v["got"]),
                           f"{v['mode']}: random scenario {rec['id']}: {_describe(rec['sc'], rec['argv'])}: observed {run_} is not "
                           f"allowed by Startup.tla ({v['field']}, line {v['pos']}: expected {v['exp']!r}, got {v['got']!r})",
                           dict(rec, reject=v))
@@ -187,6 +212,7 @@ def _run(tier, cfgs, wd, rep, side, th, t0):
         "exhaustive": True,
         "bounds": {"cfg": cfgs["gen"], "tlc_wall_s": round(r.wall, 1), "scenarios": nlines},
         "enumeration": summ,
+        "rules_exercised": exercised,
         "random": dict(rsumm, verdicts=counts),
         "negative_configs_refuted": sorted(side["neg"]),
         "known_finding_hits": {fid: n for fid, (_, n) in rep.known_hits.items()},
